@@ -134,13 +134,16 @@ PROPERTIES = {
         groups=[
             dict(mode="G", load_pkgs=["./internal/openapiv3"], pkgpath=MOD + "/internal/openapiv3", test_pkg="./internal/openapiv3", test_pkgname="openapiv3",
                 init=DEFAULT_INIT,
-                overlay={"internal/openapiv3/zz_verif_c06.go": "harness/c06/c06_schema.go", "internal/openapiv3/zz_verif_c06w.go": "harness/c06/c06_wire.go"},
+                overlay={"internal/openapiv3/zz_verif_c06.go": "harness/c06/c06_schema.go", "internal/openapiv3/zz_verif_c06w.go": "harness/c06/c06_wire.go",
+                         "internal/openapiv3/zz_verif_c18.go": "harness/c18/c18_document.go"},
                 harnesses=[dict(func="VerifC06Field", reach=["C06/field/decided", "C06/field/kf-nonfinite"], quick=dict(budget=300, parts=4), thorough=dict(budget=900, parts=8)),
                            dict(func="VerifC06Flatten", reach=["C06/flatten/decided"], quick=dict(budget=120), thorough=dict(budget=400)),
                            dict(func="VerifC06Oneof", reach=["C06/oneof/decided", "C06/oneof/kf-unset", "C06/oneof/kf-nested"], quick=dict(budget=200), thorough=dict(budget=600)),
                            dict(func="VerifC06Unwrap", reach=["C06/unwrap/decided"], quick=dict(budget=200, parts=2), thorough=dict(budget=600, parts=4)),
                            dict(func="VerifC06Builtin", reach=["C06/builtin/decided"], quick=dict(budget=60), thorough=dict(budget=120)),
-                           dict(func="VerifC06Parameters", reach=["C06/params/decided"], quick=dict(budget=100), thorough=dict(budget=300))]),
+                           dict(func="VerifC06Parameters", reach=["C06/params/decided"], quick=dict(budget=100), thorough=dict(budget=300)),
+                           # header parameters: the document harness of C18 (method-level header declarations override service-level ones)
+                           dict(func="VerifC18Document", reach=["C18/decided"], quick=dict(budget=300, parts=4), thorough=dict(budget=900, parts=8))]),
             E_BINDING(overlay={"gen/binding/zz_verif_c06v.go": "harness/c06/c06_violations_e.go"},
                       init=[MOD + "/http", "verifmod/gen/binding", "buf.build/gen/go/bufbuild/protovalidate/protocolbuffers/go/buf/validate"],
                       harnesses=[dict(func="VerifC06ValidationErrorBody", reach=["C06/validation-body/decided"], quick=dict(budget=100), thorough=dict(budget=300))]),
